@@ -261,8 +261,11 @@ func raceReports(out string) []string {
 					continue
 				}
 				f := strings.Fields(l)[0]
-				if !strings.HasPrefix(f, repoDir+"/") || strings.Contains(filepath.Base(f), "zz_verif") || strings.Contains(filepath.Base(f), "zz_gosym") {
-					continue
+				if !strings.HasPrefix(f, repoDir+"/") {
+					continue // runtime, standard library, dependencies: look at the caller
+				}
+				if strings.Contains(filepath.Base(f), "zz_verif") || strings.Contains(filepath.Base(f), "zz_gosym") || strings.Contains(f, "/testing/") {
+					break // the access is made by harness code: not a report about the code under analysis
 				}
 				top = strings.TrimPrefix(f, repoDir+"/")
 				break
